@@ -159,4 +159,42 @@ theorem toksL_cons2 (e e2 : XExpr) (r : List XExpr) :
     toksL (e :: e2 :: r) = toks e lowestPrec ++ .op .COMMA :: toksL (e2 :: r) := by
   rw [toksL]; simp [printL, strip_printE, strip_printL, pop]
 
+theorem toks_typeAssert_some (x t : XExpr) (p : Nat) :
+    toks (.typeAssert x (some t)) p =
+      toks x highestPrec ++ .op .PERIOD :: .op .LPAREN :: (toks t lowestPrec ++ [.op .RPAREN]) := by
+  rw [toks]; simp [printE, strip_printE, pop]
+
+theorem toks_typeAssert_none (x : XExpr) (p : Nat) :
+    toks (.typeAssert x none) p =
+      toks x highestPrec ++ [.op .PERIOD, .op .LPAREN, .kw kwType, .op .RPAREN] := by
+  rw [toks]; simp [printE, strip_printE, pop]
+
+/-- Tokens of the parameter part of a lambda. -/
+def lhsT (lhs : List Str) (lp : Bool) : List Tok :=
+  if lp then .op .LPAREN :: (strip (identToks lhs) ++ [.op .RPAREN])
+  else match lhs with
+    | [] => []
+    | s :: _ => [.ident s]
+
+/-- Tokens of the result part of a lambda. -/
+def rhsT (rhs : List XExpr) (rp : Bool) : List Tok :=
+  if rp then .op .LPAREN :: (toksL rhs ++ [.op .RPAREN])
+  else match rhs with
+    | [] => []
+    | e :: _ => toks e lowestPrec
+
+theorem toks_lambda (lhs : List Str) (lp : Bool) (rhs : List XExpr) (rp : Bool) (p : Nat) :
+    toks (.lambda lhs lp rhs rp) p =
+      wrapT (decide (lowestPrec < p)) (lhsT lhs lp ++ .op .DRARROW :: rhsT rhs rp) := by
+  rw [toks]
+  cases lhs <;> cases rhs <;> cases lp <;> cases rp <;>
+    by_cases h : lowestPrec < p <;>
+    simp [printE, wrapT, lhsT, rhsT, h, strip_printE, strip_printL, pop]
+
+theorem strip_identToks_nil : strip (identToks []) = [] := rfl
+theorem strip_identToks_one (s : Str) : strip (identToks [s]) = [.ident s] := rfl
+theorem strip_identToks_cons2 (s s2 : Str) (r : List Str) :
+    strip (identToks (s :: s2 :: r)) = .ident s :: .op .COMMA :: strip (identToks (s2 :: r)) := by
+  simp [identToks, pop]
+
 end GopModel.ExprSyntax
